@@ -81,7 +81,7 @@ class SdRunner(ScenarioRunner):
         return simulation_results
 
 
-    def run_scenario_step(self, step, settings, scenario_manager, scenarios, equations):
+    def run_scenario_step(self, step, settings, scenario_manager, scenarios, equations, settings_log=None):
         """
         Run a step of the given scenarios and return data for the given equations and agents
         """    
@@ -107,6 +107,17 @@ class SdRunner(ScenarioRunner):
                 for name, points in sc.points.items():
                     sc.sd_simulation.change_points(name=name, value=points)
                 sc.sd_simulation.change_runspecs(starttime=sc.starttime,stoptime=sc.stoptime,dt=sc.dt)
+                # a simulation that is set up in the middle of a session (the session was restored from external state
+                # or the scenario cache was reset) first replays the settings of the earlier steps, each from its own step on
+                for past_step, past_settings in sorted((settings_log or {}).items(), key=lambda item: float(item[0])):
+                    if float(past_step) < step and past_settings and scenario_manager in past_settings and scenario in past_settings[scenario_manager]:
+                        past = past_settings[scenario_manager][scenario]
+                        if "constants" in past or "points" in past:
+                            sc.sd_simulation.freeze_history(float(past_step))
+                        for name, value in past.get("constants", {}).items():
+                            sc.sd_simulation.change_equation(name=name, value=value)
+                        for name, value in past.get("points", {}).items():
+                            sc.sd_simulation.change_points(name=name, value=value)
 
             # now the settings relevant for this step
             
